@@ -6,5 +6,5 @@ CONSTANTS
   ConcLen = 2
   Symbols = {1, 2}
   Mutant = "none"
-INVARIANTS TypeOK OracleSane LinesExact LinesPrefix CarryIsTail OKOnlyAfterAllLines NoOKOnError SidExclusive NoMixing NoForeignBytes Balanced
+INVARIANTS TypeOK OracleSane LinesExact LinesPrefix CarryIsTail OKOnlyAfterAllLines NoOKOnError SidExclusive NoMixing NoForeignBytes BufOwned PendingStable Balanced
 CHECK_DEADLOCK FALSE
